@@ -437,6 +437,9 @@ void ScriptMaster::Archive(Archiver& arc)
     }
 
     timerList.Archive(arc);
+
+    // parm.previousthread is still answered after a load
+    arc.ArchiveSafePointer(m_PreviousThread);
 }
 
 void ScriptMaster::KillScripts()
